@@ -16,7 +16,7 @@ per_round = {}
 for name in sorted(n for n in os.listdir("/verif/seeded") if os.path.isdir(f"/verif/seeded/{n}")):
     meta = json.load(open(f"/verif/seeded/{name}/meta.json"))
     r = seeds.get(name, {})
-    m = re.search(r"-r(\d)-", name); rnd = int(m.group(1)) if m else 1
+    m = re.search(r"-r(\d+)-", name); rnd = int(m.group(1)) if m else 1
     caught = [f"{p} ({v['secs']:.0f} s)" for p, v in r.get("checks", {}).items() if v["caught"]]
     missed = [p for p, v in r.get("checks", {}).items() if not v["caught"]]
     cell = ", ".join(caught) if caught else "**not caught**"
